@@ -37,8 +37,10 @@ class C03(Prop):
     assumptions = ["port base indices are not part of the comparison (the statement lists order, direction, width "
                    "and array-ness for ports)",
                    "libraries and cells are compared as name-keyed sets, everything inside a cell in order",
-                   "names contain no double quote or newline; every element is named; library dependencies acyclic"]
-    runs = {"quick": 1500, "thorough": 40000}
+                   "names contain no double quote or newline; every element is named; library dependencies acyclic",
+                   "EDIF.identifier entries supplied by the user are legal and unique ignoring case in their scope "
+                   "(the writer takes them as they are)"]
+    runs = {"quick": 5000, "thorough": 120000}
 
     def configure(self, rng, tier):
         r = rng
